@@ -548,6 +548,9 @@ impl<TStdlib: Stdlib, TStdIn: Input, TStdOut: Printer, TLpt1: Printer>
                 self.return_address_stack.push(*address);
                 self.statement_depths
                     .push((self.value_stack.len(), self.var_path_stack.len()));
+                // the callee gets registers of its own: the caller might be in the
+                // middle of a FOR header, with the upper bound and the step in registers
+                registers::push_registers(self);
                 self.push_nesting_base(NestingKind::Call);
                 // the callee might PRINT while a PRINT of the caller is under way
                 self.print_state_stack.push(self.print_state.clone());
@@ -559,7 +562,8 @@ impl<TStdlib: Stdlib, TStdIn: Input, TStdOut: Printer, TLpt1: Printer>
                 }
                 // drop what a GOTO or EXIT out of a FOR or SELECT CASE left behind
                 if let Some(base) = self.pop_nesting_base(NestingKind::Call) {
-                    self.register_stack.truncate(base.registers);
+                    // the registers of the callee go, too
+                    self.register_stack.truncate(base.registers - 1);
                     self.value_stack.truncate(base.values);
                     // the GOSUBs of the subprogram that were never returned from
                     self.go_sub_address_stack.truncate(base.go_subs);
@@ -740,7 +744,7 @@ impl<TStdlib: Stdlib, TStdIn: Input, TStdOut: Printer, TLpt1: Printer>
         {
             let base = self.nesting_bases[index + 1];
             self.nesting_bases.truncate(index + 1);
-            self.register_stack.truncate(base.registers);
+            self.register_stack.truncate(base.registers - 1);
             self.value_stack.truncate(base.values);
             self.go_sub_address_stack.truncate(base.go_subs);
         }
